@@ -307,7 +307,10 @@ func (hs *clientHandshakeState) handshake() error {
 
 func (hs *clientHandshakeState) pickTLSVersion() error {
 	vers, ok := hs.c.config.mutualVersion(hs.serverHello.vers)
-	if !ok || vers < VersionTLS10 {
+	// mutualVersion lowers a version above our maximum to that maximum, which is
+	// right for a ClientHello but not here: a server must answer with a version
+	// no higher than the one the client offered.
+	if !ok || vers < VersionTLS10 || hs.serverHello.vers > hs.hello.vers {
 		// TLS 1.0 is the minimum version supported as a client.
 		hs.c.sendAlert(alertProtocolVersion)
 		return fmt.Errorf("tls: server selected unsupported protocol version %x", hs.serverHello.vers)
